@@ -5,6 +5,7 @@ package main
 // adversarial characters; which pool a case used is reported in the evidence.
 
 import (
+	"strconv"
 	"fmt"
 	"strings"
 
@@ -118,6 +119,10 @@ func (g *schemaGen) column(name string) *schema.Column {
 		}
 		if g.r.Chance(1, 2) {
 			c.SetDefault(&schema.Literal{V: g.lit(g.text())})
+			if d == "sqlite" && g.r.Chance(1, 3) {
+				// the double-quoted form the SQLite inspector keeps for DEFAULT "..."; the planner re-quotes it
+				c.SetDefault(&schema.Literal{V: strconv.Quote(g.text())})
+			}
 		}
 	case 4:
 		t := map[string]string{"mysql": "bool", "postgres": "boolean", "sqlite": "boolean"}[d]
